@@ -104,10 +104,36 @@ def showCacheX : Option CacheX → String
   | some .maxStale => "ms"
   | some (.expires n) => s!"ex{n}"
 
+/-! The sender's serialiser (quick-xml) writes TAB / LF / CR literally.  A conformant XML 1.0 reader (the independent
+    expat reader) then applies end-of-line handling (XML 1.0 §2.11: CR LF and CR become LF) and, in attribute values,
+    attribute-value normalisation (§3.3.3: TAB / LF / CR become a space) - finding fdtabs-1.  These two functions are
+    that reader's view of a string on the UTF-8 bytes of a hex token. -/
+def attrNormBytes : List Nat → List Nat
+  | 13 :: 10 :: r => 32 :: attrNormBytes r
+  | 13 :: r => 32 :: attrNormBytes r
+  | 10 :: r => 32 :: attrNormBytes r
+  | 9 :: r => 32 :: attrNormBytes r
+  | b :: r => b :: attrNormBytes r
+  | [] => []
+
+def eol10Bytes : List Nat → List Nat
+  | 13 :: 10 :: r => 10 :: eol10Bytes r
+  | 13 :: r => 10 :: eol10Bytes r
+  | b :: r => b :: eol10Bytes r
+  | [] => []
+
+def onHex (f : List Nat → List Nat) (t : String) : String :=
+  match unhex t with
+  | some bs => hex (f bs)
+  | none => t
+
+def attrRead (t : String) : String := onHex attrNormBytes t
+def textRead10 (t : String) : String := onHex eol10Bytes t
+
 def showAFile (f : AFile) : String :=
-  joinSp ["F", toString f.toi, f.location, showOptNat f.contentLength, showOptNat f.transferLength,
-    showOptStr f.contentType, showOptStr f.contentEncoding, showOptStr f.md5, showAttrs f.oti,
-    showCacheX f.cache, showOptStr f.etag, showList f.groups]
+  joinSp ["F", toString f.toi, attrRead f.location, showOptNat f.contentLength, showOptNat f.transferLength,
+    showOptStr (f.contentType.map attrRead), showOptStr f.contentEncoding, showOptStr (f.md5.map attrRead), showAttrs f.oti,
+    showCacheX f.cache, showOptStr (f.etag.map attrRead), showList (f.groups.map textRead10)]
 
 def insertBy {α} (key : α → Nat) (x : α) : List α → List α
   | [] => [x]
@@ -117,7 +143,7 @@ def sortBy {α} (key : α → Nat) (xs : List α) : List α := xs.foldr (insertB
 
 def showInst (i : AbsFdt) : String :=
   let fs := sortBy (fun (f : AFile) => f.toi) i.files
-  joinSp (["I", toString i.expires, showOptBool i.complete, showOptBool i.fullFdt, showList i.groups,
+  joinSp (["I", toString i.expires, showOptBool i.complete, showOptBool i.fullFdt, showList (i.groups.map textRead10),
     showAttrs i.oti, toString fs.length] ++ fs.map showAFile)
 
 def showScheme : Option Scheme → String
@@ -166,7 +192,13 @@ def showRecv (i : AbsFdt) (now : Nat) : String :=
   let rec go : List AFile → Option (List String)
     | [] => some []
     | f :: r =>
-      match recvMeta textRead i f with
+      -- the receiver looks the object's TOI up in the instance (`get_file`)
+      match getFile i f.toi with
+      | none => match go r with
+        | none => none
+        | some t => some (s!"M {f.toi} nofile" :: t)
+      | some g =>
+      match recvMeta textRead i g with
       | .error _ => none
       | .ok m => match go r with
         | none => none
@@ -254,16 +286,16 @@ def applyHints (s : State) (now : Nat) : List Hint → State × List Pub
     let (s1, popped) : State × List Pub :=
       match h with
       | .poll =>
-        let before := s.queue
-        let r := (step s (.poll now)).1
-        -- a pop happened iff the queue (after a possible republish) lost its head
-        match r.current with
-        | some p => if (needRepublish s now || !before.isEmpty) then (r, [p]) else (r, [])
-        | none => (r, [])
+        -- the instance that leaves the queue at this poll (after a possible republication)
+        let q := if needRepublish s now then (tryPublish s now).1.queue else s.queue
+        ((step s (.poll now)).1, q.take 1)
       | .start t => ((step s (.tstart t now)).1, [])
       | .stop t => ((step s (.tdone t now)).1, [])
     let (s2, ps) := applyHints s1 now r
     (s2, popped ++ ps)
+
+/-- the observed admission outcome of the FDT object for this call (`X` = `FileDesc::new` refuses it) -/
+def withAdmit (s : State) (b : Bool) : State := { s with cfg := { s.cfg with fdtFits := fun _ => b } }
 
 /-! ### step -/
 
@@ -273,12 +305,12 @@ def findPub (id : Nat) : List Pub → Option Pub
 
 def step (d : DState) (args : List String) : DState × String :=
   match args with
-  | ["cfg", mode, sid, dur, oti, gr, fcenc] =>
-    match nat? sid, nat? dur, oti? oti, optStrList? gr, nat? fcenc with
-    | some sid, some dur, some oti, some gr, some _ =>
-      if mode = "f" || mode = "o" then
+  | ["cfg", mode, sid, dur, oti, gr, fcenc, tw, ti] =>
+    match nat? sid, nat? dur, oti? oti, optStrList? gr, nats? [fcenc, tw, ti] with
+    | some sid, some dur, some oti, some gr, some [_, tw, ti] =>
+      if (mode = "f" || mode = "o") && (tw = 16 || tw = 32 || tw = 48 || tw = 64 || tw = 80 || tw = 112) then
         let cfg : Cfg := { mode := if mode = "f" then .fullFdt else .beingTransferred, startId := sid,
-                           durationUs := dur, oti := oti, groups := gr }
+                           durationUs := dur, oti := oti, groups := gr, toiBits := tw, toiInit := ti }
         ({ s := some (init cfg), popped := [] }, "ok")
       else (d, "bad-op")
     | _, _, _, _, _ => (d, "bad-op")
@@ -314,13 +346,21 @@ def step (d : DState) (args : List String) : DState × String :=
     | none => (d, "bad-op")
   | ["pub", now] =>
     match nat? now with
-    | some now => ({ d with s := some (publish s now).1 }, "ok")
+    | some now => ({ d with s := some (FdtAbs.step (withAdmit s true) (.publish now)).1 }, "ok")
+    | none => (d, "bad-op")
+  | ["pub", now, "X"] =>
+    match nat? now with
+    | some now =>
+      let r := FdtAbs.step (withAdmit s false) (.publish now)
+      ({ d with s := some r.1 }, if r.2.2 = .published false then "ERR" else "ok")
     | none => (d, "bad-op")
   | ["complete"] => ({ d with s := some (setComplete s) }, "ok")
-  | "rd" :: now :: hints =>
+  | "rd" :: now :: hints0 =>
+    let refused := hints0.head? = some "X"
+    let hints := if refused then hints0.drop 1 else hints0
     match nat? now, hints.mapM hint? with
     | some now, some hs =>
-      let (s1, pops) := applyHints s now hs
+      let (s1, pops) := applyHints (withAdmit s (!refused)) now hs
       ({ s := some s1, popped := pops.reverse ++ d.popped },
         -- EXT_FDT = 192 | V(4 bit) | instance id (20 bit): the version nibble as the wire shows it (V = 2, RFC 6726)
         if pops.isEmpty then "ok"
